@@ -1686,12 +1686,44 @@ class Exec:
             if a.ek is None or b.ek is None:
                 return a.n == b.n
             if a.ek == "ref" and not getattr(self, "spec_mode", False):
-                raise Unsupported("== on lists of nodes in code (needs Node.__eq__ contract)")
+                return self.ref_lists_equal(a, b, st)
             k = fresh("k", I)
             return z3.And(a.n == b.n, z3.ForAll([k], z3.Implies(z3.And(0 <= k, k < a.n), a.arr[k] == b.arr[k])))
         if a.kind != b.kind and {a.kind, b.kind} <= {"int", "bytes", "str", "bool", "tuple", "list"}:
             return z3.BoolVal(False)
         raise Unsupported(f"equality of {a.kind},{b.kind}")
+
+    def ref_lists_equal(self, a: VList, b: VList, st: State):
+        """list == list on lists of nodes: equal lengths and, element by element, identity or Node.__eq__ (CPython's PyObject_RichCompare
+        shortcut).  Node.__eq__ is called implicitly for an arbitrary index: its precondition and - inside Node.__eq__ itself - its
+        recursion measure are obligations for every index; its result is the specification expression of its contract (`result_is`)."""
+        c = self.contract_for("multidecoder.node.Node.__eq__")
+        if c is None or not c.result_is:
+            raise Unsupported("== on lists of nodes in code (needs a Node.__eq__ contract with result_is)")
+        if c.modifies or c.fresh_nodes or c.raises or c.raises_iff:
+            raise Unsupported("Node.__eq__ must be pure for list comparison")
+        k = fresh("k", I)
+        view = st.clone()
+        view.in_binder += 1
+        view.store = {"self": VRef(a.arr[k]), "other": VRef(b.arr[k])}
+        for nm_, src_ in c.defs.items():
+            view.store[nm_] = VFunc(ast.parse(src_.strip(), mode="eval").body, {}, nm_)
+        view.old = view
+        rng = z3.And(0 <= k, k < a.n, k < b.n)
+        for nm, e in c.requires.items():
+            self.oblige(st, "pre", f"{c.qualname.split('multidecoder.')[-1]}/{nm}@L{getattr(self, 'cur_line', 0) - self.fn.lineno} (list element)",
+                        z3.ForAll([k], z3.Implies(rng, self.spec_bool(e, view))), getattr(self, "cur_line", 0))
+        if c.qualname == self.qualname and c.decreases:
+            d0 = self.spec_val(c.decreases, self.entry)
+            d1 = self.spec_val(c.decreases, view)
+            self.oblige(st, "dec/rec", f"L{getattr(self, 'cur_line', 0) - self.fn.lineno} (list element)", z3.ForAll([k], z3.Implies(rng, self.lex_less(d1, d0))), getattr(self, "cur_line", 0))
+        saved = getattr(self, "force_uf", False)
+        self.force_uf = True
+        try:
+            eq_k = self.spec_bool(c.result_is, view)
+        finally:
+            self.force_uf = saved
+        return z3.And(a.n == b.n, z3.ForAll([k], z3.Implies(z3.And(0 <= k, k < a.n), z3.Or(a.arr[k] == b.arr[k], eq_k))))
 
     def contains(self, container: V, x: V, st: State):
         if isinstance(container, VBytes) and isinstance(x, VBytes):
@@ -1743,9 +1775,20 @@ class Exec:
     def list_index(self, l: VList, i, st: State):
         if getattr(self, "spec_mode", False):
             si = z3.simplify(i)
+            if z3.is_int_value(si) and si.as_long() >= 0 and getattr(l, "split_positions", None) is not None and not getattr(st, "in_binder", 0):
+                from .regexlib import split_index_facts
+
+                split_index_facts(l, si.as_long(), st)
             return l.n + i if z3.is_int_value(si) and si.as_long() < 0 else i
         self.raise_if(st, z3.Or(i >= l.n, i < -l.n), "IndexError", "list index")
         si = z3.simplify(i)
+        if getattr(l, "split_positions", None) is not None and not getattr(st, "in_binder", 0):
+            from .regexlib import split_index_facts
+
+            if z3.is_int_value(si) and si.as_long() >= 0:
+                split_index_facts(l, si.as_long(), st)
+            else:
+                split_index_facts(l, z3.If(i < 0, l.n + i, i), st)
         if z3.is_int_value(si):
             return i if si.as_long() >= 0 else l.n + i
         return z3.If(i < 0, l.n + i, i)
@@ -1859,6 +1902,10 @@ class Exec:
         if isinstance(obj, type) and obj.__module__.startswith("multidecoder"):
             q = f"{obj.__module__}.{obj.__qualname__}"
             return ("class", q)
+        if isinstance(obj, (types.FunctionType, types.BuiltinFunctionType)) and getattr(obj, "__module__", None):
+            c = self.contract_for(f"{obj.__module__}.{obj.__qualname__}")
+            if c is not None and c.trusted:
+                return ("contract", c, [])  # a library function with an ASSUMED contract (listed in the evidence)
         if getattr(obj, "__name__", None) in SPECS and SPECS[obj.__name__] is obj:
             return ("spec", obj.__name__)
         return ("py", obj, name)
@@ -2103,7 +2150,21 @@ class Exec:
         return b
 
     def apply_contract(self, c: Contract, args, kwargs, st: State) -> V:
+        # the callee's contract text is read in the CALLEE's module (its clauses may name that module's constants)
+        saved_mod = getattr(self, "cur_module", None)
+        modname_, _fn = split_qualname(c.qualname)
         b = self.bind_params(c, args, kwargs, st)
+        if modname_.startswith("multidecoder"):
+            try:
+                self.cur_module = module_info(modname_).mod
+            except Exception:  # noqa: BLE001
+                pass
+        try:
+            return self._apply_contract(c, b, st)
+        finally:
+            self.cur_module = saved_mod
+
+    def _apply_contract(self, c: Contract, b, st: State) -> V:
         if not getattr(self, "spec_mode", False):
             st.calllog.append((c.qualname.split(".")[-1], list(b.values())))
         if c.trusted:
